@@ -198,7 +198,11 @@ func validateSiacoins(ms *MidState, txn types.Transaction, ts V1TransactionSuppl
 		} else if parent.MaturityHeight > ms.base.childHeight() {
 			return fmt.Errorf("siacoin input %v has immature parent", i)
 		}
-		inputSum = inputSum.Add(parent.SiacoinOutput.Value)
+		// NOTE: parents are not covered by validateCurrencyOverflow
+		var overflow bool
+		if inputSum, overflow = inputSum.AddWithOverflow(parent.SiacoinOutput.Value); overflow {
+			return errors.New("transaction inputs exceed outputs") // outputs cannot overflow
+		}
 	}
 	var outputSum types.Currency
 	for _, out := range txn.SiacoinOutputs {
